@@ -1,7 +1,7 @@
 //! C14 — static delegation is zero-cost: no boxing, no dynamic dispatch, no allocation (E2 allocation counter + token scan).
 //!
 //! Each program builds a call chain of depth 1..6 of entraited fns (sync/async, single fns and module fns) ending in a plain
-//! fn, a statically delegated leaf trait or a statically delegated implementation block; every body performs a known number
+//! fn, a statically delegated leaf trait, a statically delegated implementation block or a `no_deps` fn; every body performs a known number
 //! of heap allocations. A mirror chain of plain fns with the same bodies is the reference: the number of allocations counted
 //! by a `#[global_allocator]` around the trait chain must equal the count around the plain chain (same build, same thread,
 //! after a warm-up call). The recorded expansions must not contain `dyn`/`Box` tokens that the input did not contain.
@@ -24,7 +24,7 @@ pub fn gen_case(t: &mut Tape) -> Case {
     let any_async = t.chance(1, 2);
     // level i is async iff i < first_sync (callers of an async fn must be async)
     let first_sync = if any_async { t.range(1, depth) } else { 0 };
-    let end = t.choose(3); // 0 plain entraited fn, 1 leaf trait (static Impl<T> delegation), 2 impl block (static)
+    let end = t.choose(4); // 0 plain entraited fn, 1 leaf trait (static Impl<T> delegation), 2 impl block (static), 3 `no_deps` fn
     let end_async = any_async && first_sync == depth && t.flip();
     let mut src = String::from("#![allow(warnings)]\nuse crate::rt;\npub struct App;\n");
     let is_async = |i: usize| i < first_sync;
@@ -38,7 +38,8 @@ pub fn gen_case(t: &mut Tape) -> Case {
             match end {
                 0 => ("Sized".to_string(), "x + 1".to_string()),
                 1 => ("Leaf".to_string(), "deps.leaf(x + 1)".to_string()),
-                _ => ("Repo".to_string(), "deps.get(x + 1)".to_string()),
+                2 => ("Repo".to_string(), "deps.get(x + 1)".to_string()),
+                _ => ("Leaf0".to_string(), "deps.leaf0(x + 1)".to_string()),
             }
         };
         let aw = if next_async && !(i + 1 >= depth && end == 0) { ".await" } else { "" };
@@ -74,6 +75,16 @@ pub fn gen_case(t: &mut Tape) -> Case {
         2 => src.push_str(&format!(
             "#[::entrait::entrait(RepoImpl, delegate_by = DelegateRepo)]\npub trait Repo {{ {eq}fn get(&self, x: u64) -> u64; }}\npub struct MyRepo;\n#[::entrait::entrait]\nimpl RepoImpl for MyRepo {{ pub {eq}fn get(_deps: &impl Sized, x: u64) -> u64 {{ let v = vec![x]; {ey}v[0] * 2 }} }}\nimpl DelegateRepo<Self> for App {{ type Target = MyRepo; }}\n"
         )),
+        3 => {
+            let in_mod = t.chance(1, 3);
+            let f = format!("{eq}fn leaf0(x: u64) -> u64 {{ let v = vec![x]; {ey}v[0] * 2 }}");
+            let opt = if end_async && chain_no_send { ", ?Send" } else { "" };
+            if in_mod {
+                src.push_str(&format!("#[::entrait::entrait(pub Leaf0, no_deps{opt})]\npub mod lm {{\n    use super::*;\n    pub {f}\n}}\n"));
+            } else {
+                src.push_str(&format!("#[::entrait::entrait(pub Leaf0, no_deps{opt})]\n{f}\n"));
+            }
+        }
         _ => {}
     }
     // the plain mirror chain
@@ -129,7 +140,7 @@ pub fn gen_case(t: &mut Tape) -> Case {
             String::new()
         }
     ));
-    let mut classes = vec![["end:plain_fn", "end:leaf_trait", "end:impl_block"][end]];
+    let mut classes = vec![["end:plain_fn", "end:leaf_trait", "end:impl_block", "end:no_deps_fn"][end]];
     if any_async {
         classes.push("async");
     }
@@ -142,7 +153,7 @@ pub fn gen_case(t: &mut Tape) -> Case {
     if pick > 0 {
         classes.push("output_borrows_through_lifetime_parameter");
     }
-    let summary = format!("chain depth {depth}, async levels {first_sync}, end {}{}", ["entraited fn", "statically delegated leaf trait", "statically delegated impl block"][end], if end_async { " (async)" } else { "" });
+    let summary = format!("chain depth {depth}, async levels {first_sync}, end {}{}", ["entraited fn", "statically delegated leaf trait", "statically delegated impl block", "`no_deps` fn"][end], if end_async { " (async)" } else { "" });
     Case { src, summary, nontrivial: any_async || depth >= 2, classes }
 }
 
